@@ -46,6 +46,13 @@ CHECKS = {
         "Trusted: the harness components; identity order as reference. Cycles with positive-but-insufficient delay are excluded (C04 accepts either outcome there).",
         "DESIGN.md section 4, C05",
     ),
+    "C09": (
+        "model_checking",
+        "explicit-state breadth-first search to a fixpoint over all interleavings of push/pull events on a real Output with 1-4 consumers (direct, behind pass-through, push-based and delay adapters, fan-out behind a shared adapter), states fingerprinted modulo time translation, unlimited-history reference as oracle on every transition",
+        "The normalised reachable state space (lag of the slowest consumer bounded by a window) is finite and explored completely, so the verdict covers runs of arbitrary length within the window: every pull equals the unlimited-history reference (value or refusal) and after every pull the retained history obeys the stated bound.",
+        "Trusted: reference model (core/refmodels.py); time-translation abstraction (values depend on the last two gaps only; Info.time is not part of the post-connect state) argued in DESIGN.md; half-hour request lattice, gaps {1,2,3} h.",
+        "DESIGN.md section 3 (engine C) and section 4, C09",
+    ),
     "C10": (
         "fault_enumeration",
         "exhaustive enumeration of memory limits (every prefix of publications kept in RAM plus off-by-one around each threshold) x slot kind x payload kind x step pair, each executed through the real Composition and compared differentially with the unlimited run; directory listing observed around every update",
